@@ -863,6 +863,11 @@ class Canon:
             return Ratio.sym(self.atom('pow', [a, b]))
         if k == 'call':
             args = [self.ratio(a) for a in e[2]]
+            if e[1] == 'sqrt' and len(args) == 1 and args[0].is_const():
+                c = args[0].cval()
+                import math
+                if c >= 0 and c.denominator == 1 and math.isqrt(int(c)) ** 2 == int(c):
+                    return Ratio.const(math.isqrt(int(c)))
             extra = [str(x) for x in e[3:]]
             return Ratio.sym(self.atom(e[1], args + extra))
         if k == 'tuple':
